@@ -21,7 +21,7 @@ func init() {
 		ID: "C12", Run: runC12, Oracle: oracleC12, Minimize: true,
 		Rule: "cases: every string of length <=5 (quick) / <=6 (thorough) over the 13-symbol alphabet " + fmt.Sprintf("%q", splitAlphabet) +
 			"; random lists of corpus/generated statements and lexical fragments joined by ';' with arbitrary whitespace and comments of all four kinds around the separators, " +
-			"literals and comments containing ';', '--', '/*' and quotes; token soups. Oracle: the reference lexer decides accept/reject and where the top-level ';' tokens are. " +
+			"literals and comments containing ';', '--', '/*' and quotes; the literal matrix of C14 with ';' inside and around the literal; inputs of 1-4097 lines with an error at offset 0 / a line start / the end; token soups. Oracle: the reference lexer decides accept/reject and where the top-level ';' tokens are. " +
 			"Non-trivial = >=1 top-level ';' together with >=1 ';' inside a literal or comment, or a rejected input; distinct by input hash.",
 		Assumptions: []string{"token and comment boundaries are those of the reference lexer (internal/reflex)"},
 	})
